@@ -90,15 +90,15 @@ Definition sp_fixed_ok (extent cnt : nat) : bool := Nat.eqb cnt extent.
 (* ------------------------------------------------------------------ unique_ptr / shared_ptr *)
 
 (* Handle table: unique_ptr slots 0..3, shared_ptr slots 4..7, raw pointers kept by the caller 8..9,
-   temporaries of the shared_ptr member functions 10 (tmp of operator=) and 11 (tmp of swap). *)
+   temporaries of the shared_ptr member functions 10 (tmp of operator=) and 11 (tmp of swap), and 12 = the raw
+   pointer value in flight between release() and reset(p) / a constructor argument. *)
 Inductive hv := Absent | Null | Ptr (o : nat).
-Definition NU : nat := 4.
-Definition NH : nat := 12.
+Definition NH : nat := 13.
 Definition T1 : nat := 10.
 Definition T2 : nat := 11.
-Definition is_u (i : nat) : bool := Nat.ltb i 4.
-Definition is_s (i : nat) : bool := (Nat.leb 4 i && Nat.ltb i 8) || Nat.leb 10 i.
-Definition is_r (i : nat) : bool := Nat.leb 8 i && Nat.ltb i 10.
+Definition TR : nat := 12.
+Definition is_s (i : nat) : bool := (Nat.leb 4 i && Nat.ltb i 8) || Nat.eqb i 10 || Nat.eqb i 11.
+Definition is_r (i : nat) : bool := (Nat.leb 8 i && Nat.ltb i 10) || Nat.eqb i 12.
 
 Record obj := mkobj { o_alive : bool; o_ctl : option nat (* control block use count *); o_val : Z }.
 Record pst := mkpst { hs : nat -> hv; objs : nat -> obj; nxt : nat; plog : list nat; bad : bool }.
@@ -111,10 +111,11 @@ Definition pinit : pst :=
 Definition seth (st : pst) (i : nat) (v : hv) : pst := mkpst (upd (hs st) i v) (objs st) (nxt st) (plog st) (bad st).
 Definition seto (st : pst) (o : nat) (x : obj) : pst := mkpst (hs st) (upd (objs st) o x) (nxt st) (plog st) (bad st).
 Definition set_bad (st : pst) : pst := mkpst (hs st) (objs st) (nxt st) (plog st) true.
+Definition nonabs (v : hv) : hv := match v with Ptr o => Ptr o | _ => Null end.
 
-(* new Obj(v) ; ctl = Some 1 when immediately handed to a std::shared_ptr *)
-Definition new_obj (st : pst) (v : Z) (ctl : option nat) : pst * nat :=
-  (mkpst (hs st) (upd (objs st) (nxt st) (mkobj true ctl v)) (S (nxt st)) (plog st) (bad st), nxt st).
+(* x = new Obj(v) *)
+Definition h_new (st : pst) (x : nat) (v : Z) : pst :=
+  mkpst (upd (hs st) x (Ptr (nxt st))) (upd (objs st) (nxt st) (mkobj true None v)) (S (nxt st)) (plog st) (bad st).
 
 (* delete p : a second delete of the same object is the double free ASan would report *)
 Definition delete_obj (st : pst) (o : nat) : pst :=
@@ -139,17 +140,31 @@ Definition sp_release (st : pst) (o : nat) : pst :=
   | _ => set_bad st
   end.
 
-(* --- unique_ptr.h *)
-Definition u_release (st : pst) (d : nat) : pst * hv :=            (* result = ptr_; ptr_ = nullptr *)
-  (seth st d Null, match hs st d with Ptr o => Ptr o | _ => Null end).
-Definition u_reset (st : pst) (d : nat) (p : hv) : pst :=          (* if (ptr_) delete ptr_; ptr_ = p *)
-  let st1 := match hs st d with Ptr o => delete_obj st o | _ => st end in
-  seth st1 d p.
-Definition u_dtor (st : pst) (d : nat) : pst := seth (u_reset st d Null) d Absent.
-Definition u_move_ctor (st : pst) (d s : nat) : pst := let (st1, p) := u_release st s in seth st1 d p.
-Definition u_move_assign (st : pst) (d s : nat) : pst := let (st1, p) := u_release st s in u_reset st1 d p.
-Definition u_swap (st : pst) (d s : nat) : pst :=
-  let a := hs st d in let b := hs st s in seth (seth st d b) s a.
+(* dst = std::move(src) for a pointer-like field whose previous content is NOT released first (a raw pointer
+   assignment, or placement-new of a wrapper from std::move(ptr_)); with dst = src the result is null *)
+Definition h_move (st : pst) (dst src : nat) : pst :=
+  let v := nonabs (hs st src) in seth (seth st dst v) src Null.
+(* if (ptr_ != nullptr) delete ptr_;   (ptr_ is overwritten right after) *)
+Definition h_kill (st : pst) (x : nat) : pst :=
+  match hs st x with
+  | Ptr o => seth (delete_obj st o) x Null
+  | _ => st
+  end.
+(* std::shared_ptr<T> p(raw): a control block with use count 1 takes over the raw pointer *)
+Definition h_share (st : pst) (dst src : nat) : pst :=
+  match hs st src with
+  | Ptr o => let x := objs st o in
+             seth (seth (seto st o (mkobj (o_alive x) (Some 1%nat) (o_val x))) dst (Ptr o)) src Null
+  | _ => seth (seth st dst Null) src Null
+  end.
+
+(* --- unique_ptr.h  (TR holds the value returned by release() / passed to reset(p)) *)
+Definition u_release (st : pst) (d : nat) : pst := h_move st TR d.             (* result = ptr_; ptr_ = nullptr *)
+Definition u_reset (st : pst) (d : nat) : pst := h_move (h_kill st d) d TR.   (* if (ptr_) delete ptr_; ptr_ = p *)
+Definition u_dtor (st : pst) (d : nat) : pst := seth (u_reset st d) d Absent.
+Definition u_move_ctor (st : pst) (d s : nat) : pst := h_move (u_release st s) d TR.
+Definition u_move_assign (st : pst) (d s : nat) : pst := u_reset (u_release st s) d.
+Definition u_swap (st : pst) (d s : nat) : pst := h_move (h_move (h_move st TR d) d s) s TR.
 
 (* --- shared_ptr.h : the wrapper in the placement buffer holds a std::shared_ptr *)
 (* CopyTo(buffer): placement-new a copy of the wrapper (nothing is destroyed in the buffer first) *)
@@ -158,21 +173,16 @@ Definition s_copy_to (st : pst) (dst src : nat) : pst :=
   | Ptr o => seth (sp_acquire st o) dst (Ptr o)
   | _ => seth st dst Null
   end.
-(* MoveTo(buffer): placement-new a wrapper from std::move(ptr_) (nothing destroyed first);
-   with dst = src the freshly constructed std::shared_ptr ends up empty *)
-Definition s_move_to (st : pst) (dst src : nat) : pst :=
-  let v := match hs st src with Ptr o => Ptr o | _ => Null end in
-  seth (seth st dst v) src Null.
-Definition s_dtor (st : pst) (x : nat) : pst :=
-  match hs st x with
-  | Ptr o => seth (sp_release st o) x Absent
-  | _ => seth st x Absent
-  end.
-Definition s_reset (st : pst) (x : nat) : pst :=                   (* operator=(nullptr_t) *)
+(* MoveTo(buffer): placement-new a wrapper from std::move(ptr_) (nothing destroyed first) *)
+Definition s_move_to (st : pst) (dst src : nat) : pst := h_move st dst src.
+(* ptr_.reset() / ~std::shared_ptr *)
+Definition s_drop (st : pst) (x : nat) : pst :=
   match hs st x with
   | Ptr o => seth (sp_release st o) x Null
-  | _ => seth st x Null
+  | _ => st
   end.
+Definition s_dtor (st : pst) (x : nat) : pst := seth (s_drop st x) x Absent.
+Definition s_reset (st : pst) (x : nat) : pst := s_drop st x.                  (* operator=(nullptr_t) *)
 (* this->swap(other): tmp{move(other)}; wrapper().MoveTo(other.buffer_); tmp.wrapper().MoveTo(buffer_); ~tmp *)
 Definition s_swap (st : pst) (this other : nat) : pst :=
   let st1 := s_move_to st T2 other in
@@ -189,13 +199,8 @@ Definition s_move_assign (st : pst) (d s : nat) : pst :=
   let st1 := s_move_to st T1 s in
   let st2 := s_swap st1 d T1 in
   s_dtor st2 T1.
-(* shared_ptr(unique_ptr&&): std::shared_ptr<T> ptr_(other.release()) *)
-Definition s_from_unique (st : pst) (d s : nat) : pst :=
-  let (st1, p) := u_release st s in
-  match p with
-  | Ptr o => let x := objs st1 o in seth (seto st1 o (mkobj (o_alive x) (Some 1%nat) (o_val x))) d (Ptr o)
-  | _ => seth st1 d Null
-  end.
+(* shared_ptr(pointer) / shared_ptr(unique_ptr&&): std::shared_ptr<T> ptr_(raw) moved into the wrapper *)
+Definition s_from_raw (st : pst) (d : nat) : pst := h_share st d TR.
 
 (* public operations of one lock-step case *)
 Inductive pop :=
@@ -214,18 +219,17 @@ Definition rix (d : nat) : bool := Nat.leb 8 d && Nat.ltb d 10.
 
 (* can the harness perform the operation?  (operands exist; constructors need a distinct source) *)
 Definition hvalid (h : nat -> hv) (op : pop) : bool :=
-  let present := fun (_ : unit) i => hpresent h i in let st := tt in
   match op with
   | UNew d _ | UNull d => uix d
-  | UMc d s => uix d && uix s && negb (Nat.eqb d s) && present st s
-  | UMa d s | USwap d s | UEq d s => uix d && uix s && present st d && present st s
-  | UAn d | URst d | URstN d _ | UDel d | UVal d | USetV d _ | UStd d => uix d && present st d
-  | URel d r | UAdopt d r => uix d && rix r && present st d
+  | UMc d s => uix d && uix s && negb (Nat.eqb d s) && hpresent h s
+  | UMa d s | USwap d s | UEq d s => uix d && uix s && hpresent h d && hpresent h s
+  | UAn d | URst d | URstN d _ | UDel d | UVal d | USetV d _ | UStd d => uix d && hpresent h d
+  | URel d r | UAdopt d r => uix d && rix r && hpresent h d
   | SNew d _ | SNull d | SFromStd d _ => six d
-  | SCc d s | SMc d s => six d && six s && negb (Nat.eqb d s) && present st s
-  | SCa d s | SMa d s | SSwap d s | SEq d s => six d && six s && present st d && present st s
-  | SAn d | SDel d | SVal d | SSetV d _ => six d && present st d
-  | SFromU d s => six d && uix s && present st s
+  | SCc d s | SMc d s => six d && six s && negb (Nat.eqb d s) && hpresent h s
+  | SCa d s | SMa d s | SSwap d s | SEq d s => six d && six s && hpresent h d && hpresent h s
+  | SAn d | SDel d | SVal d | SSetV d _ => six d && hpresent h d
+  | SFromU d s => six d && uix s && hpresent h s
   end.
 Definition pvalid (st : pst) (op : pop) : bool := hvalid (hs st) op.
 
@@ -254,26 +258,24 @@ Definition is_null (a : hv) : bool := match a with Ptr _ => false | _ => true en
 
 Definition pexec (st : pst) (op : pop) : pst * list tok :=
   match op with
-  | UNew d v => let st1 := u_clear st d in let (st2, o) := new_obj st1 v None in (seth st2 d (Ptr o), [])
+  | UNew d v => (h_move (h_new (u_clear st d) TR v) d TR, [])             (* unique_ptr(pointer) : ptr_{ptr} *)
   | UNull d => (seth (u_clear st d) d Null, [])
   | UMc d s => (u_move_ctor (u_clear st d) d s, [])
   | UMa d s => (u_move_assign st d s, [])
-  | UAn d | URst d => (u_reset st d Null, [])
-  | URstN d v => let (st1, o) := new_obj st v None in (u_reset st1 d (Ptr o), [])
+  | UAn d | URst d => (u_reset st d, [])                                  (* reset(nullptr) *)
+  | URstN d v => (u_reset (h_new st TR v) d, [])
   | URel d r =>
       (* the caller deletes what it still held in raw[r], then keeps d.release() there *)
-      let st1 := match hs st r with Ptr o => delete_obj st o | _ => st end in
-      let (st2, p) := u_release st1 d in (seth st2 r p, [])
-  | UAdopt d r => let p := hs st r in (seth (u_reset st d p) r Null, [])
+      (h_move (u_release (h_kill st r) d) r TR, [])
+  | UAdopt d r => (u_reset (h_move st TR r) d, [])                        (* p = raw[r]; raw[r] = nullptr; d.reset(p) *)
   | USwap d s => (u_swap st d s, [])
   | UDel d => (u_dtor st d, [])
   | UVal d | SVal d => deref st d
   | USetV d v | SSetV d v => (setval st d v, [])
   | UEq d s | SEq d s => (st, [tbool (ptr_eq (hs st d) (hs st s)); tbool (is_null (hs st d));
                             tbool (negb (ptr_eq (hs st d) (hs st s))); tbool (negb (is_null (hs st d)))])
-  | UStd d => let (st1, p) := u_release st d in (u_reset st1 d p, [])
-  | SNew d v | SFromStd d v =>
-      let st1 := s_clear st d in let (st2, o) := new_obj st1 v (Some 1%nat) in (seth st2 d (Ptr o), [])
+  | UStd d => (u_reset (u_release st d) d, [])                            (* through a std::unique_ptr and back *)
+  | SNew d v | SFromStd d v => (s_from_raw (h_new (s_clear st d) TR v) d, [])
   | SNull d => (seth (s_clear st d) d Null, [])
   | SCc d s => (s_copy_to (s_clear st d) d s, [])
   | SMc d s => (s_move_to (s_clear st d) d s, [])
@@ -282,7 +284,7 @@ Definition pexec (st : pst) (op : pop) : pst * list tok :=
   | SAn d => (s_reset st d, [])
   | SSwap d s => (s_swap st d s, [])
   | SDel d => (s_dtor st d, [])
-  | SFromU d s => (s_from_unique (s_clear st d) d s, [])
+  | SFromU d s => (s_from_raw (u_release (s_clear st d) s) d, [])
   end.
 
 Definition pstep (st : pst) (op : pop) : pst * list tok :=
@@ -292,7 +294,7 @@ Definition pstep (st : pst) (op : pop) : pst * list tok :=
 Definition teardown (st : pst) : pst :=
   let st1 := fold_left (fun s d => u_clear s d) [0; 1; 2; 3]%nat st in
   let st2 := fold_left (fun s d => s_clear s d) [4; 5; 6; 7]%nat st1 in
-  fold_left (fun s r => match hs s r with Ptr o => seth (delete_obj s o) r Null | _ => s end) [8; 9]%nat st2.
+  fold_left (fun s r => h_kill s r) [8; 9]%nat st2.
 
 Definition live_count (st : pst) : nat :=
   length (filter (fun o => o_alive (objs st o)) (seq 0 (nxt st))).
